@@ -205,16 +205,37 @@ async fn exec_fault(world: WorldRef, f: Fault) {
         Fault::Crash { node, power_loss, down_ms, .. } => {
             let id = resolve(&world.borrow(), &node);
             if let Some(id) = id {
-                // never take down a majority of the voters at once (property quantifier of C05/C10)
-                let ok = {
+                // never take down a majority of the voters at once (property quantifier of C05/C10:
+                // "crash and restart of any minority of voting nodes"). With mask `sole_voter_crash`
+                // the rule is strict: the crashed set D must be a minority of every voter
+                // configuration the run can reach (plan voters V plus any promoted learners L):
+                // 2*|D∩V| + |D∩L| < |V|; the sole voter of a 1-voter cluster is then restarted
+                // gracefully instead (a crash of 1 of 1 voters is not a minority crash). Without the
+                // mask (C02 batches: vote/term persistence of any node) the sole voter may crash.
+                let (ok, as_graceful) = {
                     let w = world.borrow();
+                    let up = w.up_nodes();
                     let voters = w.plan.voters.len();
-                    let down = w.plan.voters.iter().filter(|v| !w.up_nodes().contains(v)).count();
-                    !w.plan.voters.contains(&id) || (down + 1) * 2 < voters || voters == 1
+                    let strict = w.plan.masked.iter().any(|m| m == "sole_voter_crash");
+                    if strict {
+                        let is_down_after = |n: &u32| *n == id || !up.contains(n);
+                        let dv = w.plan.voters.iter().filter(|v| is_down_after(v)).count();
+                        let dl = w.plan.learners.iter().filter(|l| is_down_after(l)).count();
+                        let ok = 2 * dv + dl < voters;
+                        (ok, !ok && voters == 1 && w.plan.voters.contains(&id))
+                    } else {
+                        let down = w.plan.voters.iter().filter(|v| !up.contains(v)).count();
+                        (!w.plan.voters.contains(&id) || (down + 1) * 2 < voters || voters == 1, false)
+                    }
                 };
-                if ok && world.borrow().up_nodes().contains(&id) {
-                    stop_node(&world, id, if power_loss { 1 } else { 0 }, choice).await;
-                    world.borrow_mut().fire(f.kind_name());
+                if (ok || as_graceful) && world.borrow().up_nodes().contains(&id) {
+                    if as_graceful {
+                        stop_node(&world, id, 2, choice).await;
+                        world.borrow_mut().fire("sole_voter_graceful_restart");
+                    } else {
+                        stop_node(&world, id, if power_loss { 1 } else { 0 }, choice).await;
+                        world.borrow_mut().fire(f.kind_name());
+                    }
                     tokio::time::sleep(Duration::from_millis(down_ms)).await;
                     start_node(&world, id).await;
                 }
